@@ -17,8 +17,12 @@ pub fn eval(state: &mut RunState, line: &str) {
 
 /// Wrapper to group errors into one location
 fn eval_inner(state: &mut RunState, line: &'static str) -> Result<()> {
+    // Labels are stored as statement numbers: number the evaluated instruction as if it sat just before the
+    // current PC, so that a label operand denotes the label's own address wherever the PC is
+    let number = state.pc().wrapping_sub(state.orig());
+
     // Parse
-    let stmt = AsmParser::new_simple(line)?.parse_simple()?;
+    let stmt = AsmParser::new_simple(line, number)?.parse_simple()?;
 
     match stmt {
         // Don't allow any branch instructions
@@ -81,7 +85,7 @@ fn eval_inner(state: &mut RunState, line: &'static str) -> Result<()> {
     }
 
     // Check labels
-    let mut asm = AsmLine::new(0, stmt, Span::dummy());
+    let mut asm = AsmLine::new(number, stmt, Span::dummy());
     asm.backpatch()?;
 
     // Compile and execute
